@@ -78,6 +78,7 @@ def gen_plan(seed, prop, faults, nested=False):
         'weird_atoms': rng.random() < (0.5 if prop == 'C19' else 0.3),
         'large': rng.random() < 0.12,
         'feedback': rng.random() < 0.25,
+        'edits': rng.random() < 0.3,
         'fb_seed': rng.getrandbits(32),
         'hetero_states': rng.random() < (0.8 if prop == 'C19' else 0.5),
         'logics': rng.choice([['CTL', 'CTLS', 'LTL'], ['CTL', 'CTLS'],
@@ -168,6 +169,8 @@ def gen_plan(seed, prop, faults, nested=False):
             shape = 'fairfriendly'
         A = gen.gen_abstract_kripke(rng, nmax, atoms, None, shape)
         n = A['n']
+        if rng.random() < 0.12:
+            A['lab'] = [[] for _ in range(n)]     # an unlabelled structure
         if cfg['hetero_states']:
             fam = rng.choice(gen.FAMILIES)
         else:
@@ -274,6 +277,23 @@ def gen_plan(seed, prop, faults, nested=False):
         return q
 
     for _ in range(cfg['nops']):
+        if cfg['edits'] and calls and rng.random() < 0.08:
+            # the caller edits a structure between two calls, through the
+            # public API (labels(s) hands out the label set itself)
+            ki = rng.randrange(len(structs))
+            if not structs[ki].get('large'):
+                ops.append({'op': 'edit', 'k': ki,
+                            'i': rng.randrange(structs[ki]['A']['n']),
+                            'how': rng.choice(['add', 'discard', 'toggle',
+                                               'replace']),
+                            'label': rng.choice(atoms)})
+                # ask something about that structure again soon
+                prev = [j for j in calls if ops[j]['q']['k'] == ki]
+                if prev and rng.random() < 0.8:
+                    ops.append({'op': 'call',
+                                'q': dict(ops[rng.choice(prev)]['q'])})
+                    calls.append(len(ops) - 1)
+                continue
         r = rng.random()
         if calls and r < cfg['mutate_p']:
             j = rng.choice(calls)
@@ -411,6 +431,25 @@ class Pool(object):
             self.parsers[logic] = core.lang_module(logic).Parser()
         return self.parsers[logic]
 
+    def apply_edit(self, op):
+        """The caller changes the labelling of one state in place."""
+        K = self.K[op['k']]
+        st = list(K.states())[op['i']]
+        lab = op['label']
+        if op['how'] == 'replace':
+            L = dict((s, set(K.labels(s))) for s in K.states())
+            if lab in L[st]:
+                L[st].discard(lab)
+            else:
+                L[st].add(lab)
+            K.replace_labelling_function(L)
+            return
+        cur = K.labels(st)
+        if op['how'] == 'add' or (op['how'] == 'toggle' and lab not in cur):
+            cur.add(lab)
+        else:
+            cur.discard(lab)
+
     def call(self, q):
         """Issue one query; returns the raw result (or raises)."""
         mc = core.lang_module(q['mc']).modelcheck
@@ -451,7 +490,9 @@ def _trace_pred():
 
 def pristine_outcome(arg):
     """Runs in a forked child of the history process, before any operation."""
-    pool, q, want_lines = arg
+    pool, q, want_lines, edits = arg
+    for e in edits:
+        pool.apply_edit(e)
     out = {}
     try:
         res = pool.call(q)
@@ -511,21 +552,34 @@ def execute(plan):
 
     # -- pristine outcomes (S6): forked before any operation --------------
     need_lines = set()
-    distinct = {}
+    distinct = {}         # query key -> query
+    epochs = {}           # (query key, epoch) -> True
+    edit_ops = [op for op in ops if op['op'] == 'edit']
+    ep = 0
     for op in ops:
+        if op['op'] == 'edit':
+            ep += 1
         if op['op'] == 'call':
-            distinct.setdefault(qkey(op['q']), op['q'])
+            k = qkey(op['q'])
+            distinct.setdefault(k, op['q'])
+            epochs[(k, ep)] = True
             if 'fault' in op or 'nest' in op:
-                need_lines.add(qkey(op['q']))
+                need_lines.add((k, ep))
             if 'nest' in op:
-                distinct.setdefault(qkey(op['nest']['q']), op['nest']['q'])
+                k2 = qkey(op['nest']['q'])
+                distinct.setdefault(k2, op['nest']['q'])
+                epochs[(k2, ep)] = True
+    final_epoch = ep
+    for k in distinct:
+        epochs[(k, final_epoch)] = True
     pristine = {}
-    for k in sorted(distinct):
+    for (k, e) in sorted(epochs):
         st, r = run_isolated(pristine_outcome,
-                             (pool, distinct[k], k in need_lines), 200)
+                             (pool, distinct[k], (k, e) in need_lines,
+                              edit_ops[:e]), 200)
         if st != 'ok':
             raise core.HarnessError('pristine child: {} {}'.format(st, r))
-        pristine[k] = r
+        pristine[(k, e)] = r
     wellformed = {}
     inlogic = {}
     for k, q in distinct.items():
@@ -610,10 +664,12 @@ def execute(plan):
                     .format(j, core.cjson(val)[:200],
                             core.cjson(cur)[:200], i))
 
+    epoch = [0]
+
     def do_call(i, op, final=False):
         q = op['q']
         k = qkey(q)
-        ref = pristine[k]
+        ref = pristine[(k, epoch[0])]
         fault = op.get('fault') if not final else None
         nest = op.get('nest') if not final else None
         if nest is not None:
@@ -660,7 +716,7 @@ def execute(plan):
             if fired is not None:
                 faults['nested_call'] = faults.get('nested_call', 0) + 1
                 probe('nested_call_inside_' + fired[0].strip('_'))
-                ref2 = pristine[qkey(nest['q'])]
+                ref2 = pristine[(qkey(nest['q']), epoch[0])]
                 if fstate['nested_out'] != ref2['o']:
                     q2 = nest['q']
                     raise Violation(
@@ -767,6 +823,18 @@ def execute(plan):
     try:
         for i, op in enumerate(ops):
             if op['op'] == 'nop':
+                continue
+            if op['op'] == 'edit':
+                pool.apply_edit(op)
+                epoch[0] += 1
+                faults['caller_edited_structure'] = \
+                    faults.get('caller_edited_structure', 0) + 1
+                # the caller's own change is the new reference content
+                now = pool.snapshot()
+                snap0[0] = now[0]
+                events.append([i, 'edit', [op['k'], op['i'], op['how']]])
+                if prop == 'C19':
+                    check_K3(i)
                 continue
             if op['op'] == 'call':
                 k = qkey(op['q'])
